@@ -382,8 +382,8 @@ Proof.
       destruct (X Hlt) as [X1 _]. lia.
     + apply OI_schedule_self; auto; lia.
   - (* OThrow *) simpl. intros; lia.
-  - (* OMakePassive *) destruct (is_list_entry _ _); auto. intros _. apply OI_upd_other; auto.
-  - (* OMakeActive *) destruct (is_list_entry _ _); auto. intros _. apply OI_upd_other; auto.
+  - (* OMakePassive *) destruct (is_list_entry _ _); intros _; apply OI_upd_other; auto.
+  - (* OMakeActive *) destruct (is_list_entry _ _); intros _; apply OI_upd_other; auto.
   - (* OInvalidate *)
     destruct (c_out (cfg k) && true) eqn:Hc; auto.
     destruct (n_val (node_at k g)); intros _; apply OI_emit; auto.
@@ -838,8 +838,8 @@ Proof.
     apply start_set_sch_sub; auto. apply inv_reset. intros e [].
   - replace (c_out (cfg k) && false) with false by (destruct (c_out (cfg k)); auto). auto.
   - apply (start_ok_same_core k g); [repeat split|auto].
-  - destruct (is_list_entry _ _); auto. apply start_ok_upd_other; auto.
-  - destruct (is_list_entry _ _); auto. apply start_ok_upd_other; auto.
+  - destruct (is_list_entry _ _); apply start_ok_upd_other; auto.
+  - destruct (is_list_entry _ _); apply start_ok_upd_other; auto.
   - replace (c_out (cfg k) && false) with false by (destruct (c_out (cfg k)); auto). auto.
   - auto.
 Qed.
@@ -1227,8 +1227,8 @@ Proof.
   - destruct (_ && _); auto. rewrite node_at_emit, node_at_notify. apply runs_upd; auto.
   - apply f_equal. apply node_at_schedule_node.
   - reflexivity.
-  - destruct (is_list_entry _ _); auto. apply runs_upd; auto.
-  - destruct (is_list_entry _ _); auto. apply runs_upd; auto.
+  - destruct (is_list_entry _ _); apply runs_upd; auto.
+  - destruct (is_list_entry _ _); apply runs_upd; auto.
   - destruct (_ && _); auto. destruct (n_val (node_at i g)); auto.
     rewrite node_at_emit, node_at_notify. apply runs_upd; auto.
   - reflexivity.
@@ -1396,8 +1396,8 @@ Proof.
   - destruct (_ && _); auto. rewrite node_at_emit, node_at_notify. apply node_at_upd_node_other; auto.
   - apply node_at_schedule_node.
   - reflexivity.
-  - destruct (is_list_entry _ _); auto. apply node_at_upd_node_other; auto.
-  - destruct (is_list_entry _ _); auto. apply node_at_upd_node_other; auto.
+  - destruct (is_list_entry _ _); apply node_at_upd_node_other; auto.
+  - destruct (is_list_entry _ _); apply node_at_upd_node_other; auto.
   - destruct (_ && _); auto. destruct (n_val (node_at i g)); auto.
     rewrite node_at_emit, node_at_notify. apply node_at_upd_node_other; auto.
   - reflexivity.
@@ -1442,8 +1442,8 @@ Proof.
   - destruct (_ && _); auto. rewrite node_at_emit, node_at_notify. apply U; auto.
   - apply f_equal. apply node_at_schedule_node.
   - reflexivity.
-  - destruct (is_list_entry _ _); [reflexivity|]. apply U; auto.
-  - destruct (is_list_entry _ _); [reflexivity|]. apply U; auto.
+  - destruct (is_list_entry _ _); apply U; auto.
+  - destruct (is_list_entry _ _); apply U; auto.
   - destruct (_ && _); auto. destruct (n_val (node_at i g)); auto.
     rewrite node_at_emit, node_at_notify. apply U; auto.
   - reflexivity.
@@ -1498,8 +1498,8 @@ Proof.
   - destruct (_ && _); auto. simpl. rewrite len_notify. apply len_upd_node.
   - apply len_schedule_node.
   - reflexivity.
-  - destruct (is_list_entry _ _); auto. apply len_upd_node.
-  - destruct (is_list_entry _ _); auto. apply len_upd_node.
+  - destruct (is_list_entry _ _); apply len_upd_node.
+  - destruct (is_list_entry _ _); apply len_upd_node.
   - destruct (_ && _); auto. destruct (n_val (node_at i g)); auto. simpl. rewrite len_notify. apply len_upd_node.
   - reflexivity.
 Qed.
@@ -1693,12 +1693,12 @@ Proof.
     + apply schedule_node_slot_other; auto.
     + unfold wrote. rewrite node_at_schedule_node, schedule_node_now. reflexivity.
   - repeat split; auto.
-  - (* OMakePassive *) destruct (is_list_entry _ _); [repeat split; auto|].
-    split; [auto|]. split; [auto|]. split; [auto|left]. split; [reflexivity|].
-    unfold wrote. rewrite node_at_upd_same by lia. reflexivity.
-  - destruct (is_list_entry _ _); [repeat split; auto|].
-    split; [auto|]. split; [auto|]. split; [auto|left]. split; [reflexivity|].
-    unfold wrote. rewrite node_at_upd_same by lia. reflexivity.
+  - (* OMakePassive *) destruct (is_list_entry _ _);
+    (split; [auto|]; split; [auto|]; split; [auto|left]; split; [reflexivity|];
+     unfold wrote; rewrite node_at_upd_same by lia; reflexivity).
+  - destruct (is_list_entry _ _);
+    (split; [auto|]; split; [auto|]; split; [auto|left]; split; [reflexivity|];
+     unfold wrote; rewrite node_at_upd_same by lia; reflexivity).
   - (* OInvalidate: with a value it notifies exactly like a write *)
     destruct (c_out _ && true) eqn:Eo; [|repeat split; auto].
     destruct (n_val (node_at i g)) eqn:Ev; [|repeat split; auto].
